@@ -932,3 +932,25 @@ End DirNames.
 Definition iter_pathname (out : fspath) (d : iter_path) : fspath := out ++ [numbered S_iter (Z.to_nat (fst d))].
 Definition plate_pathname (out : fspath) (p : plate_path) : fspath :=
   out ++ [numbered S_iter (Z.to_nat (fst (fst p))); numbered S_plate (Z.to_nat (snd (fst p)))].
+
+(* ---------- vocabulary of the source-translation link of validate_initial_output_dir_and_get_result_files_as_dict
+   (harness/src_functions.py C19_VALIDATE_INITIAL, Generated/SrcOrchInit.v; proofs: Proofs/C19Source_ValidateInitial.v) ----------
+   The function is handed the job directory of the INITIAL step (iter_0/plate_0); as for the other helpers the path is the
+   model value it denotes (a globbed plate directory = ((i, j), its files)) and a glob for one file name has at most one match.
+     initial_required      the files the function insists on, in the order it reads them out of its three globs
+     initial_files         the dict it returns: {"test_screen": path, "training_screen": path, "screen_metadata": loaded json}
+                           (a metadata object is its n_unobserved_plates entry, as everywhere in this model)
+     validate_initial      None when training.screen.h5 or screen_metadata.json is missing (the `or` of the two len tests);
+                           with both present and NO test.screen.h5 the read `test_screen_glob[0]` is an IndexError (why = 98):
+                           the test screen is required too, but its absence is an exception, not a None
+     initial_complete      all three are there: exactly when the function returns the dict *)
+Definition initial_required : list kind := [KTest; KTraining; KMeta].
+Definition initial_complete (d : pdir) : bool := forallb (produced d) initial_required.
+Record initial_files := mkif { if_test : spath; if_training : spath; if_meta : Z }.
+Definition validate_initial (p : plate_path) : sres (option initial_files) :=
+  match f_training (snd p), f_meta (snd p) with
+  | Some _, Some m =>
+      if f_test (snd p) then SOk (Some (mkif (SFile (fst p) KTest) (SFile (fst p) KTraining) m))
+      else SRaised [] 98
+  | _, _ => SOk None
+  end.
